@@ -1593,6 +1593,18 @@ class Data(BaseCartesianData):
         else:
             raise ValueError("Non-unique component labels in new data")
 
+        # If the number of dimensions changes, the pixel and world components
+        # cannot be matched by label and have to be re-created
+        ndim_changed = data.ndim != self.ndim
+        if ndim_changed:
+            coordinate_labels = set(cid.label for cid in self.coordinate_components + data.coordinate_components)
+            old_labels -= coordinate_labels
+            new_labels -= coordinate_labels
+            self.coords = None
+            for cid in self._pixel_component_ids[:]:
+                self.remove_component(cid)
+                self._pixel_component_ids.remove(cid)
+
         # Remove components that don't have a match in new data
         for cname in old_labels - new_labels:
             cid = self.find_component_id(cname)
@@ -1600,6 +1612,9 @@ class Data(BaseCartesianData):
 
         # Update shape
         self._shape = data._shape
+
+        if ndim_changed:
+            self._update_pixel_components(self.ndim)
 
         # Update components that exist in both. Note that we can't just loop
         # over old_labels & new_labels since we need to make sure we preserve
